@@ -1,6 +1,7 @@
-INIT Init
-NEXT Next
+INIT SimInit
+NEXT SimNext
 CONSTANTS
+  ArmMax = 60
   Kind = "sdhc"
   UseCrc = TRUE
   NB = 3
